@@ -1,6 +1,6 @@
 """C09: Abort and context cancellation are never lost."""
 import vlib
-from vlib import mk_case
+from vlib import mk_case, hexs
 
 TRUSTED = ["hooks of build tag verif in vm.go (verifSync at run.enter, run.reset, abort.mid, abort.exit, invoke.acquire, invoke.acquired, invoke.checked) and the harness controller c09.go which stops the running goroutine at a point and lets the aborting goroutine act there",
            "extracted protocol model (Abort/Abort.v) and schedule driver (Abort/AbortDrive.v)"]
@@ -97,6 +97,27 @@ def run(rep, br, proofs, rng, tier):
                 dis.append((c["line"], "protocol model (repaired protocol) answers %s, implementation %s" % (mo, o)))
         mo = model.get("o." + c["id"])
         if mo is not None and parse_outcome(mo)[0] == "hang": stats["orig_model_loses"] += 1
+    # Eval sessions in which the context of every second fragment is already cancelled when Run is called: that fragment
+    # ends promptly with an error, and the fragments after it run normally on what the earlier ones left
+    SESS = [(["a := 41", "b := 2", "return a", "c := 1", "return a + 1"], [None, "err", "(ok (i 41))", "err", "(ok (i 42))"]),
+            (["f := func(x) { return x * 2 }\nn := 10", "n = 11\nfor { }", "return [f(n), n]", "for { n++ }", "return n"], [None, "err", "(ok (a (i 20) (i 10)))", "err", "(ok (i 10))"]),
+            (["global cancel\nk := 5", "k = 6", "k = 7\ncancel()\nfor { }", "k = 8", "return k"], [None, "err", "err", "err", "(ok (i 7))"])]
+    ecases = [mk_case("ec%d" % i, "evalcancel", *[hexs(f.encode()) for f in frs]) for i, (frs, _) in enumerate(SESS)]
+    eimpl, _ = vlib.run_impl([c["line"] for c in ecases], timeout=300)
+    for c, (frs, want) in zip(ecases, SESS):
+        out = eimpl.get(c["id"])
+        if not out or not out.startswith("(evalcancel"): fails.append((c["line"], "Eval session with cancelled contexts: %s" % out)); continue
+        sx = vlib.parse_sexp(out)[1:]
+        for j, w in enumerate(want):
+            if j >= len(sx): fails.append((c["line"], "Eval session with cancelled contexts stopped at fragment %d: %s" % (j, out[:300]))); break
+            got, ms = vlib.sexp_str(sx[j][0]), int(sx[j][1])
+            if w is None: continue
+            if w == "err":
+                if not got.startswith("(err") or ms > 1500:
+                    fails.append((c["line"], "fragment %d (%r) run under a cancelled context: expected a prompt error, got %s after %d ms" % (j, frs[j], got[:200], ms))); break
+            elif got != w:
+                fails.append((c["line"], "fragment %d (%r) after a fragment whose context was cancelled: expected %s, got %s" % (j, frs[j], w, got[:300]))); break
+        stats["eval_cancel_sessions"] = stats.get("eval_cancel_sessions", 0) + 1
     for line, why in fails[:10]:
         rep.violation({"property": "C09", "kind": "oracle", "why": why, "case": line})
     if not fails:
@@ -104,7 +125,7 @@ def run(rep, br, proofs, rng, tier):
             rep.violation({"property": "C09", "kind": "correspondence", "why": why, "case": line}, found=False)
     rep.coverage.update({
         "evaluations": len(cases) + len(mcases) + len(ocases), "distinct_nontrivial": stats["aborted"],
-        "rule": "every placement of Abort's two actions (flag store, abort of registered children) against the protocol points of a run (Run entry/reset, script running, Invoker acquire / registered / aborted-check, child Run entry/reset, child running, second invocation on the same child, after the callback) for scripts that loop forever in the root VM, in a pooled child VM (strings.Map), in a child VM kept by an Invoker without Acquire across three invocations, after a callback and in a nested child; context cancellation at every point of Eval.Run including before Run's reset; free-running aborts at random delays; each schedule forced through the verif hooks, Run must return aborted within 1.5 s, and afterwards a script with pooled callbacks must run normally on the aborted VM and on a new VM (three rounds); modelled schedules compared with the Coq protocol model; non-trivial = schedules on which Run returned aborted",
+        "rule": "every placement of Abort's two actions (flag store, abort of registered children) against the protocol points of a run (Run entry/reset, script running, Invoker acquire / registered / aborted-check, child Run entry/reset, child running, second invocation on the same child, after the callback) for scripts that loop forever in the root VM, in a pooled child VM (strings.Map), in a child VM kept by an Invoker without Acquire across three invocations, after a callback and in a nested child; context cancellation at every point of Eval.Run including before Run's reset; free-running aborts at random delays; Eval sessions in which every second fragment is given an already cancelled context (prompt error, later fragments run normally on the state of the earlier ones); each schedule forced through the verif hooks, Run must return aborted within 1.5 s, and afterwards a script with pooled callbacks must run normally on the aborted VM and on a new VM (three rounds); modelled schedules compared with the Coq protocol model; non-trivial = schedules on which Run returned aborted",
         "samples": [cases[0]["line"], cases[len(cases)//2]["line"], cases[-1]["line"]],
         "stats": stats, "traces": traces, "disagreements": len(dis), "oracle_failures": len(fails)})
 
